@@ -183,6 +183,47 @@ def _candidate_kinds(mod: Module) -> T.Dict[str, str]:
     return out
 
 
+def _cand_params(mod: Module, m: str) -> T.List[str]:
+    """parameters of the candidate method `self.<m>` after the receiver (reference signature: kwargs, name, subproject kwargs)"""
+    if not (m.startswith('self.') and mod.has_func(f'{H}.{m[5:]}')):
+        raise Undecided(f'_get_candidates: bound function {m} is not a method of {H}')
+    a = mod.func(f'{H}.{m[5:]}').args
+    if a.vararg or a.kwarg or a.kwonlyargs or a.posonlyargs or len(a.args) != 4:
+        raise Undecided(f'_get_candidates: {m} does not have the signature (kwargs, name, subproject kwargs)')
+    return [x.arg for x in a.args[1:]]
+
+
+def _closure_pair(mod: Module, e: ast.AST) -> T.Optional[ast.AST]:
+    """a candidate given as a closure with its name bound, `functools.partial(self.m, <name parameter of m>=X)`, read as the pair (self.m, X);
+    None when `e` is no partial application; a partial that binds anything else than exactly the name parameter is not read"""
+    if not (isinstance(e, ast.Call) and (call_name(e) or '') in ('functools.partial', 'partial')):
+        return None
+    if len(e.args) != 1 or len(e.keywords) != 1 or e.keywords[0].arg is None:
+        raise Undecided(f'_get_candidates: {short(e)} does not bind exactly the name parameter by keyword')
+    params = _cand_params(mod, attr_chain(e.args[0]) or '?')
+    if e.keywords[0].arg != params[1]:
+        raise Undecided(f'_get_candidates: {short(e)} binds {e.keywords[0].arg!r}, the name parameter is {params[1]!r}')
+    return ast.Tuple(elts=[e.args[0], e.keywords[0].value], ctx=ast.Load())
+
+
+def _closure_candidates(mod: Module) -> T.Optional[T.List[T.List[str]]]:
+    """None when _get_candidates builds (function, name) pairs; when every candidate is a closure with the name bound: the parameter lists
+    of the bound methods (the candidate loop then calls the closure with the remaining two)"""
+    fn = _fn(mod, f'{H}._get_candidates')
+    parts = [c for c in calls_in(fn, nested=True) if (call_name(c) or '') in ('functools.partial', 'partial')]
+    if not parts:
+        return None
+    kinds = _candidate_kinds(mod)
+    pairs = [t for t in ast.walk(fn) if isinstance(t, ast.Tuple) and len(t.elts) == 2 and (attr_chain(t.elts[0]) or '')[5:] in kinds]
+    if pairs:
+        raise Undecided('_get_candidates: some candidates are (function, name) pairs and some are partial applications')
+    out = []
+    for c in parts:
+        _closure_pair(mod, c)
+        out.append(_cand_params(mod, attr_chain(c.args[0]) or '?'))
+    return out
+
+
 def r1a(ctx: RuleCtx) -> None:
     mod = ctx.repo.module(DF)
     kinds = _candidate_kinds(mod)
@@ -192,6 +233,7 @@ def r1a(ctx: RuleCtx) -> None:
     used: T.Set[str] = set()
 
     def one(pair: ast.AST, var: T.Optional[str]) -> T.Tuple[str, str]:
+        pair = _closure_pair(mod, pair) or pair
         if not (isinstance(pair, ast.Tuple) and len(pair.elts) == 2):
             raise Undecided(f'_get_candidates: candidate is not a (function, name) pair: {short(pair)}')
         m = attr_chain(pair.elts[0]) or ''
@@ -720,12 +762,15 @@ def r1f(ctx: RuleCtx) -> None:
     LAST = tables.canon(_parse(f'{cand}[0] == len(self._get_candidates()) - 1'), True)[0]
     calls: T.Set[str] = set()
 
+    closures = _closure_candidates(mod)      # candidates as closures with the name bound: the loop calls `candidate(kwargs, subproject kwargs)`
+    CALLEE = f'{cand}[1][0]' if closures is None else f'{cand}[1]'
+
     def cls(a: Atom, e: ast.AST) -> T.Optional[str]:
-        if a.kind == 'truth' and isinstance(e, ast.Call) and norm(e.func) == f'{cand}[1][0]':
+        if a.kind == 'truth' and isinstance(e, ast.Call) and norm(e.func) == CALLEE:
             calls.add(a.args[0])
             return 'object'
         if a.kind == 'truth' and isinstance(e, ast.Call) and call_method(e) == 'found' and isinstance(e.func, ast.Attribute) \
-                and isinstance(e.func.value, ast.Call) and norm(e.func.value.func) == f'{cand}[1][0]':
+                and isinstance(e.func.value, ast.Call) and norm(e.func.value.func) == CALLEE:
             return 'found'
         if a == _truth("ARG1.get('required', True)"):
             return 'required'
@@ -739,6 +784,27 @@ def r1f(ctx: RuleCtx) -> None:
         raise Undecided(f'{qn}: candidate invoked in {len(calls)} different ways')
     call = _parse(next(iter(calls)))
     assert isinstance(call, ast.Call)
+    if closures is not None:
+        # bind the call by the signature of every bound method: the name parameter is the closure's, the other two come from the loop
+        if any(isinstance(x, ast.Starred) for x in call.args) or any(k.arg is None for k in call.keywords):
+            raise Undecided(f'{qn}: candidate call {short(call)} passes */** arguments')
+        views = set()
+        for params in closures:
+            got_: T.Dict[str, ast.AST] = {}
+            free = [p_ for p_ in params if p_ != params[1]]
+            for p_, x in zip(params, call.args):       # positional arguments fill the parameters from the left (partial bound by keyword)
+                got_[p_] = x
+            for k in call.keywords:
+                if k.arg in got_ or k.arg not in params:
+                    raise Undecided(f'{qn}: candidate call {short(call)} does not fit the signature {params} of a bound method')
+                got_[k.arg] = k.value      # type: ignore[index]
+            if len(call.args) > 3 or sorted(got_) != sorted(free):
+                raise Undecided(f'{qn}: candidate call {short(call)} does not supply exactly {free} of a bound method (name bound by the closure)')
+            views.add((norm(got_[params[0]]), norm(got_[params[2]])))
+        if len(views) != 1:
+            raise Undecided(f'{qn}: candidate call {short(call)} binds differently for different candidate methods')
+        v0, v2 = next(iter(views))
+        call = ast.Call(func=call.func, args=[_parse(v0), _parse(f'{cand}[1][1]'), _parse(v2)], keywords=[])
     if not (len(call.args) == 3 and not call.keywords):
         raise Undecided(f'{qn}: candidate call {short(call)} is not (kwargs, name, subproject kwargs)')
     if norm(call.args[0]) != 'ARG1' and not (isinstance(call.args[0], ast.Name) and False):
@@ -1196,8 +1262,11 @@ def _archive_origins(mod: Module, q: str, e: ast.AST, flows: T.Dict[str, Flow], 
         is_method = '.' in q and q.count('.') == 1 and 'staticmethod' not in decorator_names(fn)
         if a.vararg and a.vararg.arg == pname or a.kwarg and a.kwarg.arg == pname or pname not in pos + [x.arg for x in a.kwonlyargs]:
             raise Undecided(f'{q}: archive path comes from the variadic/nested parameter {pname!r}')
-        if q.count('.') > 1 or (is_method and pos and pname == pos[0]):
-            raise Undecided(f'{q}: archive path comes from {pname!r} (receiver or parameter of a nested function)')
+        if is_method and pos and pname == pos[0]:
+            out.add(o)      # the receiver: state of the object, no verified source
+            continue
+        if q.count('.') > 1:
+            raise Undecided(f'{q}: archive path comes from {pname!r} (parameter of a nested function)')
         short_name = q.split('.')[-1]
         sites: T.List[T.Tuple[str, ast.Call]] = []
         called: T.Set[int] = set()
